@@ -46,7 +46,7 @@ def run_case(sh, i, plan):
     clear_typelib_caches(also_typing=True)
     opts = U.Opts(depth=rng.choice([1, 2, 2, 3, plan["depth"]]), multi_unions=False)
     prog, gen, roots = make_program(rng, opts, nroots=3)
-    vg = U.ValueGen(rng)
+    vg = U.ValueGen(rng, flagged_patterns=True)
     try:
         for spec in roots:
             tsrc = spec.src
